@@ -10,6 +10,7 @@ import (
 	sentinel "github.com/alibaba/sentinel-golang/api"
 	"github.com/alibaba/sentinel-golang/core/base"
 	"github.com/alibaba/sentinel-golang/core/hotspot"
+	"github.com/alibaba/sentinel-golang/core/system"
 	"pgregory.net/rapid"
 
 	"verif/harness/hx"
@@ -708,6 +709,49 @@ func TestSmallCapacityResidency(t *testing.T) {
 		}
 		c.Op("capacity=%d values=%d T=%d burst=%d requests=%d", capacity, nv, T, burst, n)
 		if sawKept {
+			c.NonTrivial()
+		}
+	})
+}
+
+// TestBlockedByAnotherModule: the resource is also guarded by a system rule (inbound QPS), so some
+// requests for a value are rejected by another module before they reach the hotspot check. Durations of 10 s and a history
+// of a few seconds: nothing is refilled, so however the other modules' rejections interleave, a value is admitted at most
+// threshold+burst tokens in total; and a request the hotspot rule itself lets through while the others reject changes
+// nothing for the other values.
+func TestBlockedByAnotherModule(t *testing.T) {
+	hx.Check(t, hx.N{Quick: 2000, Thorough: 20000}, func(t *rapid.T, c *hx.Case) {
+		hx.Reset(hx.Epoch + uint64(rapid.IntRange(0, 999).Draw(t, "t0")))
+		T := int64(rapid.IntRange(1, 3).Draw(t, "T"))
+		burst := int64(rapid.IntRange(0, 1).Draw(t, "burst"))
+		if _, err := hotspot.LoadRules([]*hotspot.Rule{{ID: "h", Resource: "h", MetricType: hotspot.QPS, ControlBehavior: hotspot.Reject, ParamIndex: 0, Threshold: T, BurstCount: burst, DurationInSec: 10, SpecificItems: map[interface{}]int64{}}}); err != nil {
+			t.Fatalf("hotspot rule: %v", err)
+		}
+		q := float64(rapid.IntRange(1, 3).Draw(t, "inboundQpsTrigger"))
+		if _, err := system.LoadRules([]*system.Rule{{ID: "sys", MetricType: system.InboundQPS, TriggerCount: q}}); err != nil {
+			t.Fatalf("system rule: %v", err)
+		}
+		admitted := map[string]int64{}
+		sysBlocks := 0
+		for i, n := 0, rapid.IntRange(3, 30).Draw(t, "n"); i < n; i++ {
+			hx.C.AddMs(uint64(rapid.SampledFrom([]int{0, 0, 100, 500, 1000}).Draw(t, "dt")))
+			if hx.C.Ms()-hx.Epoch > 8500 {
+				break // stay inside the first duration: no refill
+			}
+			v := rapid.SampledFrom([]string{"a", "a", "b"}).Draw(t, "v")
+			e, blk := sentinel.Entry("h", sentinel.WithTrafficType(base.Inbound), sentinel.WithArgs(v))
+			if e != nil {
+				admitted[v]++
+				e.Exit()
+			} else if blk.BlockType() == base.BlockTypeSystemFlow {
+				sysBlocks++
+			}
+			c.Op("+%d v=%s -> %v", hx.C.Ms()-hx.Epoch, v, blk)
+			if admitted[v] > T+burst {
+				t.Fatalf("value %s admitted %d tokens inside one duration of 10 s (threshold %d, burst %d) after %d request(s) were rejected by the system rule: rejections by another module handed tokens back that were never taken", v, admitted[v], T, burst, sysBlocks)
+			}
+		}
+		if sysBlocks > 0 && (admitted["a"] == T+burst || admitted["b"] == T+burst) {
 			c.NonTrivial()
 		}
 	})
